@@ -1098,3 +1098,121 @@ func (b *blockManager) zzQueuePing(sp *ServerPeer) {
 	}
 }
 ''')])
+
+# ---- C17 ----
+mut("c17-getblock-no-quit-arm", ["C17"], [(Q, '''	errChan := s.workManager.Query([]*query.Request{request}, queryOpts...)
+	select {
+	case err := <-errChan:
+		if err != nil {
+			return nil, err
+		}
+	case <-s.quit:
+		return nil, ErrShuttingDown
+	}
+''', '''	errChan := s.workManager.Query([]*query.Request{request}, queryOpts...)
+	select {
+	case err := <-errChan:
+		if err != nil {
+			return nil, err
+		}
+	}
+''')], ["C17.B1"])
+mut("c17-batchwriter-before-workmanager", ["C17"], [(N, '''	if s.persistToDisk {
+		s.filterBatchWriter.Stop()
+	}
+
+	// Signal the remaining goroutines to quit.''', '''	// Signal the remaining goroutines to quit.'''), (N, '''	s.connManager.Stop()
+	s.broadcaster.Stop()
+''', '''	s.connManager.Stop()
+	if s.persistToDisk {
+		s.filterBatchWriter.Stop()
+	}
+	s.broadcaster.Stop()
+''')], ["C17.O1"])
+mut("c17-cfhandler-no-done", ["C17"], [(BM, '''	go func() {
+		defer b.wg.Done()
+
+		log.Debug("Waiting for peer connection...")''', '''	go func() {
+		log.Debug("Waiting for peer connection...")''')], ["C17.O2"])
+mut("c17-cond-wait-no-quit-poll", ["C17"], [(BM, '''		b.newHeadersSignal.Wait()
+
+		// While we're awake, we'll quickly check to see if we need to
+		// quit early.
+		select {
+		case <-b.quit:
+			b.newHeadersSignal.L.Unlock()
+			return
+
+		default:
+		}
+''', '''		b.newHeadersSignal.Wait()
+''')], ["C17.O3"])
+mut("c17-query-no-reply", ["C17"], [("notifications.go", '''		if state.Count() >= MaxPeers {
+			msg.reply <- errors.New("max peers reached")
+			return
+		}
+		for _, peer := range state.persistentPeers {''', '''		if state.Count() >= MaxPeers {
+			return
+		}
+		for _, peer := range state.persistentPeers {''')], ["C17.X1"])
+mut("c17-scanner-before-workmanager", ["C17"], [(N, '''	if err := s.workManager.Stop(); err != nil {
+		log.Errorf("error stopping work manager: %v", err)
+		returnErr = err
+	}
+	if err := s.utxoScanner.Stop(); err != nil {
+		log.Errorf("error stopping utxo scanner: %v", err)
+		returnErr = err
+	}
+''', '''	if err := s.utxoScanner.Stop(); err != nil {
+		log.Errorf("error stopping utxo scanner: %v", err)
+		returnErr = err
+	}
+	if err := s.workManager.Stop(); err != nil {
+		log.Errorf("error stopping work manager: %v", err)
+		returnErr = err
+	}
+''')], ["C17.S1"])
+mut("c17-new-bare-send", ["C17"], [(US, '''	heap.Push(&s.pq, req)
+
+	s.cv.L.Unlock()
+	s.cv.Signal()
+''', '''	heap.Push(&s.pq, req)
+
+	s.cv.L.Unlock()
+	s.cv.Signal()
+	s.shutdown <- struct{}{}
+''')], ["C17.B1"])
+mut("c17-unbuffered-broadcast-reply", ["C17"], [(PB, "	errChan := make(chan error, 1)\n\n	select {\n	case b.broadcastReqs", "	errChan := make(chan error)\n\n	select {\n	case b.broadcastReqs")], ["C17.B1"])
+mut("c17-untracked-goroutine", ["C17"], [(BM, '''	log.Trace("Starting block manager")
+	b.wg.Add(2)''', '''	log.Trace("Starting block manager")
+	go b.cfHandler()
+	b.wg.Add(2)''')], ["C17.O2"])
+mut("c17-quit-after-wait", ["C17"], [("query/workmanager.go", '''	close(w.quit)
+	w.wg.Wait()
+''', '''	w.wg.Wait()
+	close(w.quit)
+''')], ["C17.O1"])
+mut("c17-blockmanager-stop-no-wakeup", ["C17"], [(BM, '''			b.newHeadersSignal.Broadcast()
+			b.newFilterHeadersSignal.Broadcast()
+''', '''			b.newFilterHeadersSignal.Broadcast()
+''')], ["C17.O3"])
+mut("c17-stop-twice", ["C17"], [(N, '''	// Make sure this only happens once.
+	if atomic.AddInt32(&s.shutdown, 1) != 1 {
+		return nil
+	}
+
+	var returnErr error
+	s.connManager.Stop()''', '''	atomic.AddInt32(&s.shutdown, 1)
+
+	var returnErr error
+	s.connManager.Stop()''')], ["C17.O1"])
+mut("c17-handoff-falls-through", ["C17"], [("notifications.go", '''	select {
+	case s.query <- getConnCountMsg{reply: replyChan}:
+		return <-replyChan
+	case <-s.quit:
+		return 0
+	}''', '''	select {
+	case s.query <- getConnCountMsg{reply: replyChan}:
+	case <-s.quit:
+	}
+	return <-replyChan''')], ["C17.X1"])
